@@ -169,7 +169,9 @@ impl TryFrom<&str> for Observation {
         let pocket = Hand::try_from(pocket)?;
         let public = Hand::try_from(public)?;
         match (pocket.size(), public.size()) {
-            (2, 0) | (2, 3) | (2, 4) | (2, 5) => Ok(Self::from((pocket, public))),
+            (2, 0) | (2, 3) | (2, 4) | (2, 5) if u64::from(pocket) & u64::from(public) == 0 => {
+                Ok(Self::from((pocket, public)))
+            }
             _ => Err(format!("invalid card counts: {} {}", pocket, public)),
         }
     }
